@@ -98,7 +98,7 @@ _TYPES = {"bool": bool, "int": int, "float": float, "str": str, "list": list, "t
           "dict": dict, "set": set, "slice": slice}
 _STR_METHODS = {
     "lower", "upper", "casefold", "strip", "lstrip", "rstrip", "startswith", "endswith", "split",
-    "replace", "isdigit", "join", "title", "capitalize",
+    "replace", "isdigit", "join", "title", "capitalize", "format", "splitlines", "find", "rfind", "zfill", "isalpha", "isupper",
 }
 _CONTAINER_METHODS = {"get", "items", "keys", "values", "count", "index", "copy", "append", "extend", "add", "update",
                       "setdefault", "pop"}  # mutation of containers *local to the lifted fragment*
